@@ -1,4 +1,5 @@
 import BtcwVerif.Model.Migration
+-- engine: migration
 import Driver.Proto
 open Proto Migration
 
